@@ -22,17 +22,17 @@ SRC = '/repo/src/furax'
 CHECKS = {
     '_base/core.py': ['C02', 'C03', 'C04', 'C05', 'C06', 'C08', 'C01'],
     '_base/rules.py': ['C01', 'C07'],
-    '_base/blocks.py': ['C10', 'C03', 'C01'],
+    '_base/blocks.py': ['C10', 'C03', 'C01', 'C07'],
     '_base/diagonal.py': ['C11', 'C04', 'C06', 'C01'],
-    '_base/indices.py': ['C12', 'C01'],
+    '_base/indices.py': ['C12', 'C01', 'C07'],
     '_base/linear.py': ['C12'],
-    '_base/axes.py': ['C13', 'C01'],
+    '_base/axes.py': ['C13', 'C01', 'C07'],
     '_base/dense.py': ['C14', 'C03', 'C04'],
     '_base/config.py': ['C19'],
     'operators/toeplitz.py': ['C09'],
-    'operators/qu_rotations.py': ['C15', 'C01'],
-    'operators/hwp.py': ['C15', 'C01'],
-    'operators/polarizers.py': ['C15', 'C01'],
+    'operators/qu_rotations.py': ['C15', 'C01', 'C07'],
+    'operators/hwp.py': ['C15', 'C01', 'C07'],
+    'operators/polarizers.py': ['C15', 'C01', 'C07'],
     'landscapes.py': ['C20', 'C17', 'C18'],
     'projections.py': ['C16'],
     'instruments/sat.py': ['C16'],
